@@ -661,6 +661,13 @@ pub fn shard_main(cases: &[(&str, fn(&mut GridCtx))]) {
         let ops = alphabet("shape");
         let worlds = enumerate_states(&ops, depth);
         let mut ctx = GridCtx { ops, worlds, found: vec![], stats: GridStats::default(), only_world };
+        if let Some(msg) = ENUM_FAILURE.with(|f| f.borrow_mut().take()) {
+            // the catalogue is built with plain public operations; a panic there means queries cannot be judged
+            // on that world, and is itself a misbehaviour reported for whichever property this shard serves
+            for prop in ["C03", "C09", "C15"] {
+                ctx.found.push((prop.into(), "operation-panicked-while-building-a-catalogue-world".into(), msg.clone(), "{\"engine\":\"grid\",\"case\":\"catalogue\",\"world_index\":0,\"world_history\":[]}".into()));
+            }
+        }
         for (name, f) in cases {
             if only_case.as_ref().map_or(false, |c| c != name) {
                 continue;
